@@ -218,13 +218,14 @@ func (lex *Lexer) call(state int, fnext int) {
 }
 
 func (lex *Lexer) ret(n int) {
-	lex.top = lex.top - n
-	if lex.top < 0 {
+	if lex.top < n {
+		// nothing to return to (unmatched '}'): stay in the current state
 		lex.top = 0
+		lex.p++
+		return
 	}
-	if lex.top < len(lex.stack) {
-		lex.cs = lex.stack[lex.top]
-	}
+	lex.top = lex.top - n
+	lex.cs = lex.stack[lex.top]
 	lex.p++
 }
 
